@@ -10,7 +10,10 @@ Oracle: the property's own relations evaluated on the real code with expectation
 the exported frames (independent of the Lean model): round trip right after the call AND again at the end of
 the history, repeatable reads, filters, a valid call must succeed (the dimension of a mesh is judged from its
 own frame), a failing call - including failures injected into h5py after data were written - must leave a
-recursive dump of the whole file (names, shapes, dtypes, attributes, data) as it was."""
+recursive dump of the whole file (names, shapes, dtypes, attributes, data) as it was.
+Variable round trips are checked only when the variable comes from the frame its geometry was exported from (and
+that frame is valid).  An injected-failure trial needs the exporter to keep its path in `_file_name`; if it no longer
+does, the trial is skipped silently (no count)."""
 import copy
 import json
 import os
@@ -41,7 +44,9 @@ ELEMENT_TYPES = {(2, 3): 0, (2, 6): 1, (2, 4): 2, (2, 8): 3, (3, 4): 4, (3, 10):
 INT32_MIN, INT32_MAX = -2 ** 31, 2 ** 31 - 1
 NAN = float("nan")
 
-# finding classes that may be OPEN known findings (tied to an input mechanism, see `mechanism_from`)
+# finding classes tied to an input mechanism (see `mechanism_from`).  Both WERE open known findings; both are fixed in
+# /repo (id-overflow-int32: 0e66e4b, sticky-dimension: ba72c38), so `mechanism_from` is called with an empty set of
+# classes and is inert - a hit of either class is reported as a violation.
 K_OVERFLOW = "id-overflow-int32"
 K_STICKY = "sticky-dimension"
 
@@ -498,8 +503,12 @@ def op_has_overflow(case, op):
 def mechanism_from(case, classes):
     """Index of the first op at which the input mechanism of one of the finding classes `classes` acts, else None:
     id-overflow-int32 - the call has to store an id outside int32;
-    sticky-dimension  - add_geometry of a frame whose own dimension is 2 after an add_geometry (whatever its outcome)
-                        of a frame whose own dimension is 3."""
+    sticky-dimension  - add_geometry of a frame whose own dimension is not 3 (i.e. 2, or None = z differs between the
+                        rows of a node) after an add_geometry (whatever its outcome) of a frame whose own dimension
+                        is not 2 (i.e. 3 or None): `own_dim(...) == None` counts on both sides.
+    (`Run.export_op` assigns the class sticky-dimension more narrowly: only to a frame whose own dimension IS 2 after
+    a frame whose own dimension is not 2.  The two places do not agree on `None`; that only matters while the class is
+    open, which it is not.)"""
     seen3 = False
     for i, op in enumerate(case["ops"]):
         if K_OVERFLOW in classes and op_has_overflow(case, op):
@@ -656,7 +665,6 @@ class Run:
                 self.stored.append(chk)
         elif k == "var":
             if self.geom_frame.get(op["geom"]) == op["frame"] and frame_valid(fr):
-                key = (op["state"], op["geom"], op["var"])
                 chk = lambda pre="", o=op, f=fr, p=pos: self.check_variable_roundtrip(o, f, p, pre)
                 chk()
                 self.stored.append(chk)
@@ -978,7 +986,9 @@ MODES = ["dense", "gaps", "gaps", "wide", "int32"]
 
 
 def gen_frame(rng, tier, want=None):
-    """A mesh frame.  want: None (valid) | 'badcount' | 'noxy' | 'objcoord' | 'empty' | 'beyond'.  (Frames with a repeated
+    """A mesh frame.  want: None (no defect asked for - the frame can still be invalid or 3D by its own content: per-node
+    coordinate conflicts / missing coordinates in 15 % of the frames, a 2D element set with noise in z) | 'badcount' |
+    'noxy' | 'objcoord' | 'empty' | 'beyond'.  (Frames with a repeated
     (element, node) pair are not meshes - pandas joins multiply their rows - and are outside the property's quantifier.)"""
     dim = rng.choice([2, 2, 3])
     big = tier == "thorough"
@@ -1356,19 +1366,25 @@ class C20(Prop):
             "elements by id ascending with connectivity in frame order, type from (the frame's own dimension, node count); "
             "ids outside int32 refused; variables: NODE = first non-missing cell per node, ELEMENT_NODAL = rows grouped by "
             "element id; sets appended) with the roll-back of the except-branches; import = mesh index from the "
-            "connectivity, coordinates / variables joined by key, set filters; to_frame resets the session")
+            "connectivity, coordinates / variables joined by key, set filters; to_frame hands out the mesh and clears it - "
+            "the selected geometry and state of the session stay")
     ASSUMPTIONS = [
         "HDF5/h5py is modelled as a store that returns what was written (groups, datasets, attributes; binary64 / binary32 "
         "cells bit for bit; ids as the 32 bit integers of the format).  h5py's integer conversions are NOT uniform (a "
         "vlen int32 connectivity and an int64->int32 dataset conversion saturate, `dtype=np.int32` on a DataFrame wraps, a "
         "Python int into a structured '<i4' field raises): the model has none of them because ids outside int32 are "
-        "refused (tools/fixes/C20-2-int32-ids.diff); the harness reads files with h5py as well (trusted)",
+        "refused (/repo commit 0e66e4b; the dimension per geometry is commit ba72c38); the harness reads files with h5py as "
+        "well (trusted)",
         "pandas groupby (sorted distinct keys, rows of a group in frame order), GroupBy.first (first non-NaN cell per "
         "column, NaN if there is none), stable argsort, Index.drop_duplicates, DataFrame.merge / join by key (left order "
         "kept; a frame with distinct (element, node) pairs has no duplicate keys) are modelled by list functions; the "
         "correspondence check compares them with the real calls on this run's inputs",
-        "valid mesh frame = non-empty, distinct (element_id, node_id) pairs, columns x and y present and of a numeric "
-        "dtype, ids within int32; its dimension is judged from the frame alone (3 iff a z column is not constant)",
+        "valid mesh frame (the oracle's `frame_valid` / `valid_call`) = non-empty, distinct (element_id, node_id) pairs, "
+        "columns x and y present and of a numeric dtype, ids within int32; its dimension is judged from the frame alone (3 iff "
+        "a z column is not constant).  The guard `ValidMesh` of the Lean success theorems is weaker: ids within int32, "
+        "non-empty only when there is a z column, coordinate columns present and not of object dtype, every element's node "
+        "count a type of the frame's own dimension; distinct pairs are a hypothesis of roundtrip_element_nodal_variable and "
+        "find_own_row only",
         "a failing add_variable may leave the (empty) state / geometry groups it created under /VMAP/VARIABLES; they "
         "hold no variable, are not compared and not reported",
         "not compared with the model (incidental): exception classes, the order and multiplicity of set members in the "
@@ -1494,9 +1510,10 @@ class C20(Prop):
             return None
         a = model_out[0].split("|") if model_out else []
         b = impl_out[0].split("|") if impl_out else []
-        # The model describes the code WITH the repairs tools/fixes/C20-*.diff.  While a repaired defect is still an OPEN
-        # known finding (the fix is not in /repo yet) the segments from the first call on which that defect's input
-        # mechanism acts are the oracle's business (it reports the finding class); up to that call model and code must agree.
+        # The model describes the repaired code (/repo commits 5bedc75, 810bb8c, c3a1079, 6fd00f9, ba72c38, 0e66e4b).  If one of
+        # the two mechanism classes were an OPEN known finding again, the segments from the first call on which that defect's
+        # input mechanism acts would be the oracle's business (it reports the finding class) and model and code would have to
+        # agree only up to that call.  Both classes are fixed: the set below is empty, `stop` is None, every segment is compared.
         stop = mechanism_from(case, self._open_classes() & {K_OVERFLOW, K_STICKY})
         if stop is not None:
             a, b = a[:stop], b[:stop]
